@@ -105,6 +105,16 @@ class S(K0, metaclass=SubHookMeta):
     """An argument class that answers __is_subtype__ (consulted when S is looked up)."""
 
 
+class BoomMeta(type):
+    def __is_subtype__(cls, other):
+        COUNTS["hook:boom"] += 1
+        raise RuntimeError("user hook failed")
+
+
+class Boom(metaclass=BoomMeta):
+    """Looking this class up makes a user hook raise during resolution."""
+
+
 ANN = {"IsK": IsK, "NamedK1": Named["K1"], "Hooked": Hooked, "K0": K0, "K1": K1, "O": object, "list": list, "int": int, "S": S}
 
 POOL = [
@@ -117,7 +127,7 @@ POOL = [
     {"id": 6, "shape": gen.SHAPES["x"], "types": {"x": "K1"}, "prio": 5, "body": "cn"},
     {"id": 7, "shape": gen.SHAPES["x"], "types": {"x": "IsK"}, "prio": 6, "body": "cn"},
 ]
-VALUES = {"k0": K0(), "k1": K1(), "z": Z(), "1": 1, "s": S()}
+VALUES = {"k0": K0(), "k1": K1(), "z": Z(), "1": 1, "s": S(), "boom": Boom()}
 # methods that call_next with a value they do not accept themselves (the fresh-call path of call_next)
 POOL.append({"id": 8, "shape": gen.SHAPES["x"], "types": {"x": "int"}, "prio": 0, "body": "cnv", "env": {"__v": VALUES["k1"]}})
 POOL.append({"id": 9, "shape": gen.SHAPES["x"], "types": {"x": "list"}, "prio": 1, "body": "cnv", "env": {"__v": VALUES["k0"]}})
@@ -219,7 +229,7 @@ def programs(tier):
 
 
 def sigma_for(combo):
-    s = ["k0", "k1", "z", "1", "s"]
+    s = ["k0", "k1", "z", "1", "s", "boom"]
     if 5 in combo or 9 in combo:
         s += ["[k0,k1]", "[[k1],1]"]
     return s
